@@ -73,6 +73,20 @@ struct Known {
     /// a running program wrote to 0xFC/0xFD (timer) resp. 0xFA (UART): value unknown to the harness
     timer_tainted: bool,
     uart_tainted: bool,
+    /// a master reset / load has happened since the last UART write: whether it kept or cleared the
+    /// UART data byte is pinned by no statement, both are accepted from then on
+    uart_either: bool,
+}
+
+/// the expectations that are all acceptable for the registers without a getter
+fn candidates(known: &Known, master: bool) -> Vec<Known> {
+    let mut v = vec![known.clone()];
+    if known.uart.is_some() && (master || known.uart_either) {
+        let mut k = known.clone();
+        k.uart = None;
+        v.push(k);
+    }
+    v
 }
 
 /// did the control word just executed write to the UART / timer registers?
@@ -242,7 +256,13 @@ fn reset_faults(pre: &Machine, scn: &Scn, known: &Known, at: (usize, u32), ctx: 
     if c.bus().board() != pre.bus().board() {
         return Err(v("reset-untouched", at, "cpu_reset: the extension board changed".into()));
     }
-    hidden_state(&c, construct(pre, false, known), at, "cpu_reset", ctx)?;
+    {
+        let cands = candidates(known, false);
+        let any_ok = cands.iter().skip(1).any(|k| construct(pre, false, k).map(|e| e == c).unwrap_or(false));
+        if !any_ok {
+            hidden_state(&c, construct(pre, false, known), at, "cpu_reset", ctx)?;
+        }
+    }
 
     // ---- RST-MASTER ----
     let mut c = pre.clone();
@@ -290,9 +310,7 @@ fn reset_faults(pre: &Machine, scn: &Scn, known: &Known, at: (usize, u32), ctx: 
     }
     // (the UART data byte after a master reset is pinned by no statement: kept or cleared)
     {
-        let mut k2 = known.clone();
-        k2.uart = None;
-        let cleared_ok = known.uart.is_some() && construct(pre, true, &k2).map(|e| e == c).unwrap_or(false);
+        let cleared_ok = candidates(known, true).iter().skip(1).any(|k| construct(pre, true, k).map(|e| e == c).unwrap_or(false));
         if !cleared_ok {
             hidden_state(&c, construct(pre, true, known), at, "master_reset", ctx)?;
         }
@@ -375,9 +393,7 @@ fn reset_faults(pre: &Machine, scn: &Scn, known: &Known, at: (usize, u32), ctx: 
             e.raw_mut().set_programsize(c.programsize());
             Some(e)
         };
-        let mut k2 = known.clone();
-        k2.uart = None;
-        let cleared_ok = known.uart.is_some() && build(&k2).map(|e| e == c).unwrap_or(false);
+        let cleared_ok = candidates(known, true).iter().skip(1).any(|k| build(k).map(|e| e == c).unwrap_or(false));
         if !cleared_ok {
             if let Some(e) = build(known) {
                 hidden_state(&c, Some(e), at, "load", ctx)?;
@@ -458,6 +474,7 @@ fn run(scn: &Scn, ctx: &mut Ctx) -> Result<(), Violation> {
                 m.load(img.bytecode());
                 known.timer_writes.clear();
                 known.timer_tainted = false;
+                known.uart_either = true;
                 ctx.cov.fault("LOAD");
             }
             Op::Clock(n, asm) => {
@@ -505,10 +522,12 @@ fn run(scn: &Scn, ctx: &mut Ctx) -> Result<(), Violation> {
                     Stim::BusWrite(0xFA, val) => {
                         known.uart = Some(*val);
                         known.uart_tainted = false;
+                        known.uart_either = false;
                     }
                     Stim::MasterReset | Stim::Load(_) => {
                         known.timer_writes.clear();
                         known.timer_tainted = false;
+                        known.uart_either = true;
                     }
                     _ => {}
                 }
